@@ -151,6 +151,10 @@ type BoundSummary struct {
 type ParamPath struct {
 	Param int
 	Field string // "" for the parameter itself
+	// Outer: for a closure, a (field of a) parameter of the enclosing
+	// function that the closure reads through a captured variable
+	// (Param is -1 then).
+	Outer *ssa.Parameter
 }
 
 // BCtx is the per-function bound context (exported for hooks).
@@ -587,6 +591,18 @@ func (c *bctx) callee(call *ssa.Call, cal *ssa.Function, idx int, d int) Bounds 
 		if lp.Param >= len(args) {
 			continue
 		}
+		if lp.Outer != nil {
+			// the closure reads the enclosing function's own limit: meaningful
+			// only when the caller is that function
+			if lp.Outer.Parent() == c.fn {
+				var v ssa.Value = lp.Outer
+				if lp.Field != "" {
+					v = paramField{lp.Outer, lp.Field}
+				}
+				out.Limits[c.limKey(v)] = v
+			}
+			continue
+		}
 		a := args[lp.Param]
 		if lp.Field == "" {
 			out.Limits[c.limKey(a)] = a
@@ -788,7 +804,9 @@ func (e *Engine) BoundSummaryOf(fn *ssa.Function, idx int) *BoundSummary {
 	for _, v := range acc.Limits {
 		if pp, ok := limitParam(c, v); ok {
 			if i := pidx(pp.p); i >= 0 {
-				s.LimitParams = append(s.LimitParams, ParamPath{i, pp.field})
+				s.LimitParams = append(s.LimitParams, ParamPath{Param: i, Field: pp.field})
+			} else if pp.p.Parent() != fn {
+				s.LimitParams = append(s.LimitParams, ParamPath{Param: -1, Field: pp.field, Outer: pp.p})
 			}
 		}
 	}
@@ -856,7 +874,13 @@ func limitParam(c *bctx, v ssa.Value) (pfield, bool) {
 		}
 		// load of <param-cell>.field or of a param cell, possibly after a defaulting store of a constant
 		if fa, ok := x.X.(*ssa.FieldAddr); ok {
-			if cell, ok := fa.X.(*ssa.Alloc); ok {
+			cell, ok := fa.X.(*ssa.Alloc)
+			if fv, isFV := fa.X.(*ssa.FreeVar); isFV {
+				// a closure reading the enclosing function's captured parameter
+				cell = ssau.FreeVarCell(fv)
+				ok = cell != nil
+			}
+			if ok {
 				if p := spilledParam(cell); p != nil {
 					if onlyConstFieldStores(cell, fa.Field) {
 						return pfield{p, ssau.FieldName(fa)}, true
@@ -883,35 +907,65 @@ func derefStructOf(t types.Type) (*types.Struct, bool) {
 func spilledParam(cell *ssa.Alloc) *ssa.Parameter {
 	var p *ssa.Parameter
 	n := 0
-	for _, ref := range *cell.Referrers() {
-		if st, ok := ref.(*ssa.Store); ok && st.Addr == ssa.Value(cell) {
-			n++
-			p, _ = st.Val.(*ssa.Parameter)
+	forCellAliases(cell, func(addr ssa.Value) {
+		for _, ref := range *addr.Referrers() {
+			if st, ok := ref.(*ssa.Store); ok && st.Addr == addr {
+				n++
+				p, _ = st.Val.(*ssa.Parameter)
+			}
 		}
-	}
+	})
 	if n == 1 {
 		return p
 	}
 	return nil
 }
 
-// onlyConstFieldStores: every store to field #f of the cell stores a constant
-// (a default), so the field is the parameter's field or that default.
-func onlyConstFieldStores(cell *ssa.Alloc, f int) bool {
-	for _, ref := range *cell.Referrers() {
-		fa, ok := ref.(*ssa.FieldAddr)
-		if !ok || fa.Field != f {
-			continue
+// forCellAliases calls f on the cell and on every captured variable of a
+// closure that is bound to it (transitively).
+func forCellAliases(cell *ssa.Alloc, f func(addr ssa.Value)) {
+	seen := map[ssa.Value]bool{}
+	var visit func(addr ssa.Value)
+	visit = func(addr ssa.Value) {
+		if seen[addr] || addr.Referrers() == nil {
+			return
 		}
-		for _, r2 := range *fa.Referrers() {
-			if st, ok := r2.(*ssa.Store); ok && st.Addr == ssa.Value(fa) {
-				if _, isC := st.Val.(*ssa.Const); !isC {
-					return false
+		seen[addr] = true
+		f(addr)
+		for _, ref := range *addr.Referrers() {
+			if mc, ok := ref.(*ssa.MakeClosure); ok {
+				fn := mc.Fn.(*ssa.Function)
+				for i, b := range mc.Bindings {
+					if b == addr && i < len(fn.FreeVars) {
+						visit(fn.FreeVars[i])
+					}
 				}
 			}
 		}
 	}
-	return true
+	visit(cell)
+}
+
+// onlyConstFieldStores: every store to field #f of the cell stores a constant
+// (a default), so the field is the parameter's field or that default.
+func onlyConstFieldStores(cell *ssa.Alloc, f int) bool {
+	okAll := true
+	forCellAliases(cell, func(addr ssa.Value) {
+		for _, ref := range *addr.Referrers() {
+			fa, ok := ref.(*ssa.FieldAddr)
+			if !ok || fa.Field != f {
+				continue
+			}
+			for _, r2 := range *fa.Referrers() {
+				if st, ok := r2.(*ssa.Store); ok && st.Addr == ssa.Value(fa) {
+					if _, isC := st.Val.(*ssa.Const); !isC {
+						okAll = false
+					}
+				}
+			}
+		}
+	})
+	return okAll
 }
 
 // FieldOf resolves the value of a field of a struct-valued argument.
